@@ -112,3 +112,23 @@ def gen_relocs_build(rng, tier):
             tys[rng.randrange(k)] = rng.choice([0, 16, 255])      # outside the documented precondition
         cases.append(["relocs_build " + ",".join("0x%x:%d" % (r, t) for r, t in zip(rvas, tys))])
     return cases
+
+
+def gen_fmt_cstr(rng, tier):
+    """Debug / Display of C strings containing every byte value (the formatter loops are hand-written)"""
+    cases = [["fmt_cstr -"]]
+    for v in range(1, 256):
+        cases.append(["fmt_cstr %02x" % v])
+        cases.append(["fmt_cstr 41%02x42" % v])
+        cases.append(["fmt_cstr %02x%02x" % (v, v)])
+    reps = [0x41, 0x7F, 0x80, 0x1F, 0x22, 0x5C, 0x0A, 0x09, 0x0D, 0x7E, 0x20, 0xFF]
+    for a in reps:
+        for b in reps:
+            for c in reps:
+                cases.append(["fmt_cstr %02x%02x%02x" % (a, b, c)])
+    n = 300 if tier == "quick" else 20000
+    for _ in range(n):
+        ln = rng.choice([1, 2, 5, 17, 64, 300])
+        bs = bytes(rng.choice(reps + [rng.randrange(1, 256)]) for _ in range(ln))
+        cases.append(["fmt_cstr %s" % bs.hex()])
+    return cases
